@@ -448,3 +448,271 @@ impl Scenario for HeldConc {
         ]
     }
 }
+
+// =============================================================================================================
+// C08 (engine-T part): the reservation API under concurrency; C16 (engine-T part): rejected sends under concurrency
+// =============================================================================================================
+
+/// conservation over the recorded history, reported under `property`: what was accepted (sent reserved slots included)
+/// is yielded exactly once with the content written; what was rejected / cancelled is never yielded
+fn judge_conservation(property: &str, family: &str, kind: Kind, events: &[scn_uni::Ev], uni: bool, n_listeners: usize) {
+    use std::collections::BTreeMap;
+    let key = |oracle: &str| format!("{}/{}/{}", family, kind.name(), oracle);
+    let mut accepted: BTreeMap<u32, scn_uni::Entry> = BTreeMap::new();
+    let mut rejected: BTreeMap<u32, (scn_uni::Entry, bool, bool)> = BTreeMap::new();
+    for e in events {
+        if let EvKind::SendOp(entry) = e.kind {
+            if e.accepted {
+                accepted.insert(e.id, entry);
+            } else {
+                rejected.insert(e.id, (entry, e.intact, e.setter_invoked_on_reject));
+            }
+        }
+    }
+    let mut yielded: BTreeMap<u32, u32> = BTreeMap::new();
+    for e in events.iter().filter(|e| e.kind == EvKind::Poll && e.accepted) {
+        *yielded.entry(e.id).or_insert(0) += 1;
+        if !e.intact {
+            ctx::report(property, "payload_corrupted", key("payload_corrupted"), format!("event {:#x} was yielded with a payload that is not what was written", e.id));
+        }
+        if let Some((entry, _, _)) = rejected.get(&e.id) {
+            let oracle = if *entry == scn_uni::Entry::Reserve { "cancelled_or_refused_slot_delivered" } else { "rejected_delivered" };
+            ctx::report(property, oracle, key(oracle), format!("event {:#x} was {} but a stream yielded it", e.id, if *entry == scn_uni::Entry::Reserve { "cancelled (or its reservation refused)" } else { "rejected as buffer-full" }));
+        } else if !accepted.contains_key(&e.id) {
+            ctx::report(property, "invented", key("invented"), format!("a stream yielded {:#x}, which was never sent", e.id));
+        }
+    }
+    let expected = if uni { 1 } else { n_listeners as u32 };
+    for (id, entry) in accepted.iter() {
+        let n = yielded.get(id).copied().unwrap_or(0);
+        if n > expected {
+            ctx::report(property, "duplicate", key("duplicate"), format!("event {:#x} ({}) was yielded {} times", id, entry.name(), n));
+        } else if n < expected {
+            ctx::report(property, "lost", key("lost"), format!("event {:#x} ({}) was accepted but yielded {} time(s) instead of {}, even after every stream was woken until nothing more came out", id, entry.name(), n, expected));
+        }
+    }
+    for (id, (_, intact, invoked)) in rejected.iter() {
+        if !intact || *invoked {
+            ctx::report(property, "rejected_input_touched", key("rejected_input_touched"), format!("the input of rejected send {:#x} was not handed back unchanged and un-invoked", id));
+        }
+    }
+}
+
+fn conc_body(p: &HeldParams, property: &'static str, family: &'static str) {
+    reset();
+    let zero = OwnCfg { clone: 0, share: 0, give: 0, bulk: 0 };
+    if let Some(up) = &p.uni {
+        let fam: &'static str = ctx::intern(format!("{}/{}", family, up.kind.name()));
+        ctx::with_ctx(|c| {
+            c.ledger.own = Some(zero);
+            c.ledger.held_property = "C05";
+            c.ledger.held_family = fam;
+            c.ledger.expected_deliveries = 1;
+        });
+        let data = scn_uni::uni_body_ex(up, true, true);
+        if ctx::aborted() {
+            return;
+        }
+        judge_conservation(property, family, up.kind, &data.events, true, 1);
+        if let Some((accepted, one_more)) = data.own.as_ref().and_then(|o| o.capacity_after) {
+            if accepted as usize != up.buffer || one_more {
+                ctx::report(property, "capacity_after", format!("{}/{}/capacity_after", family, up.kind.name()), format!("after every reservation was sent or cancelled, every rejected send had returned and everything was consumed and released, {} of {} sends were accepted (and a further one: {})", accepted, up.buffer, one_more));
+            }
+        }
+    } else if let Some(mp) = &p.multi {
+        let fam: &'static str = ctx::intern(format!("{}/{}", family, mp.kind.name()));
+        ctx::with_ctx(|c| {
+            c.ledger.own = Some(zero);
+            c.ledger.held_property = "C05";
+            c.ledger.held_family = fam;
+            c.ledger.expected_deliveries = mp.listeners as u32;
+        });
+        let data = scn_multi::multi_body(mp, true, true);
+        if ctx::aborted() {
+            return;
+        }
+        judge_conservation(property, family, mp.kind, &data.events, false, mp.listeners);
+        if let Some((accepted, one_more, after_reuse)) = data.capacity_after {
+            if accepted as usize != mp.buffer || one_more {
+                ctx::report(property, "capacity_after", format!("{}/{}/capacity_after", family, mp.kind.name()), format!("after every rejected send had returned and everything was consumed and released, {} of {} sends were accepted with a fresh listener (and a further one: {}; after every stream id was handed out again: {:?})", accepted, mp.buffer, one_more, after_reuse));
+            }
+        }
+    }
+}
+
+macro_rules! conc_scenario_common {
+    () => {
+        type P = HeldParams;
+        fn engine(&self) -> &'static str {
+            "T"
+        }
+        fn sched<'a>(&self, p: &'a HeldParams) -> &'a SchedSpec {
+            HeldConc.sched(p)
+        }
+        fn key_context(&self, p: &HeldParams) -> String {
+            HeldConc.key_context(p)
+        }
+        fn shrink(&self, p: &HeldParams) -> Vec<HeldParams> {
+            HeldConc.shrink(p)
+        }
+        fn size(&self, p: &HeldParams) -> u64 {
+            HeldConc.size(p)
+        }
+        fn components(&self) -> serde_json::Value {
+            HeldConc.components()
+        }
+    };
+}
+
+pub struct ReserveConc;
+
+const RESERVE_UNI_KINDS: [Kind; 5] = [Kind::UniZcAtomic, Kind::UniZcFullSync, Kind::UniMoveAtomic, Kind::UniZcAtomic, Kind::UniZcFullSync];
+
+impl Scenario for ReserveConc {
+    conc_scenario_common!();
+    fn property(&self) -> &'static str {
+        "C08"
+    }
+    fn name(&self) -> &'static str {
+        "reserve_conc"
+    }
+    fn generate(&self, rng: &mut Rng, tier: Tier) -> HeldParams {
+        let mut p = scn_uni::draw_uni_params(rng, tier, &RESERVE_UNI_KINDS, &[1, 2], true);
+        p.buffer = *rng.pick(&[2usize, 4, 4, 8]);
+        p.prefill = p.prefill.min(p.buffer as u32 / 2);
+        p.hold = if p.kind.is_zero_copy() { rng.below(2) as u32 } else { 0 };
+        let n_res = 1 + rng.below(3) as usize;
+        // the movable ring documents: cancel in reverse reservation order, and no plain send by a thread that holds a
+        // reservation. With several threads reserving, "reverse order" is not under any one thread's control: cancels
+        // only when a single thread uses the ring at all
+        let movable = p.kind == Kind::UniMoveAtomic;
+        let single = movable && rng.chance(1, 2);
+        let n_res = if single { 1 } else { n_res };
+        if single {
+            p.producers.clear();
+        } else if rng.chance(1, 2) {
+            p.producers.truncate(1);
+        } else {
+            p.producers.clear();
+        }
+        let max_ops = if tier == Tier::Thorough { 9 } else { 7 };
+        p.reservers = (0..n_res)
+            .map(|_| {
+                let n = 2 + rng.below(max_ops) as usize;
+                (0..n)
+                    .map(|_| match rng.below(10) {
+                        0..=3 => scn_uni::ROp::Reserve,
+                        4 | 5 => scn_uni::ROp::SendOldest,
+                        6 => scn_uni::ROp::SendNewest,
+                        7 | 8 => {
+                            if movable && !single {
+                                scn_uni::ROp::SendOldest
+                            } else {
+                                scn_uni::ROp::CancelNewest
+                            }
+                        }
+                        _ => scn_uni::ROp::PlainSend,
+                    })
+                    .collect()
+            })
+            .collect();
+        HeldParams { own: OwnCfg { clone: 0, share: 0, give: 0, bulk: 0 }, uni: Some(p), multi: None }
+    }
+    fn with_sched(&self, p: &HeldParams, s: SchedSpec) -> HeldParams {
+        HeldConc.with_sched(p, s)
+    }
+    fn body(&self, p: &HeldParams) -> Option<Body> {
+        let p2 = p.clone();
+        Some(Arc::new(move || conc_body(&p2, "C08", "reserve_conc")))
+    }
+    fn assumptions(&self) -> Vec<String> {
+        vec![
+            "sequential consistency at the instrumented atomics; plain shared accesses interleave at the instrumented yield points".into(),
+            "the movable atomic channel is driven within its documented restrictions: a thread holding a reservation issues no plain send; cancellations only when a single thread uses the ring (reverse reservation order is then under its control) and only of slots nothing was written to; a thread sends its own reservations oldest first".into(),
+            "try_send_reserved / try_cancel_slot_reserve answering false are retried (with a scheduling point in between) until they answer true".into(),
+            "capacity is judged after every reservation was sent or cancelled, the consumers were stopped, and with nothing buffered or held".into(),
+        ]
+    }
+}
+
+pub struct RejectConc;
+
+const REJECT_UNI_KINDS: [Kind; 5] = [Kind::UniMoveAtomic, Kind::UniMoveFullSync, Kind::UniMoveCrossbeam, Kind::UniZcAtomic, Kind::UniZcFullSync];
+const REJECT_MULTI_KINDS: [Kind; 2] = [Kind::MultiOgreAtomic, Kind::MultiOgreFullSync];
+
+impl Scenario for RejectConc {
+    conc_scenario_common!();
+    fn property(&self) -> &'static str {
+        "C16"
+    }
+    fn name(&self) -> &'static str {
+        "reject_conc"
+    }
+    fn generate(&self, rng: &mut Rng, tier: Tier) -> HeldParams {
+        let own = OwnCfg { clone: 0, share: 0, give: 0, bulk: 0 };
+        let max_ops = if tier == Tier::Thorough { 10 } else { 8 };
+        let mut out = if rng.chance(3, 4) {
+            let mut p = scn_uni::draw_uni_params(rng, tier, &REJECT_UNI_KINDS, &[1, 2], true);
+            // small buffers, several producers with more events than there is room for, a consumer that may keep handles:
+            // sends are rejected while others are in flight on the "full" boundary
+            p.buffer = *rng.pick(&[2usize, 2, 4]);
+            p.prefill = rng.below(p.buffer as u64 + 1) as u32;
+            p.hold = if p.kind.is_zero_copy() { rng.below(p.buffer as u64) as u32 } else { 0 };
+            let n_prod = 2 + rng.below(2) as usize;
+            p.producers = (0..n_prod)
+                .map(|_| {
+                    let n = 2 + rng.below(max_ops) as usize;
+                    (0..n)
+                        .map(|_| {
+                            if p.kind == Kind::UniMoveCrossbeam {
+                                // its setter-based sends wait for room after their fullness test (excluded by the property)
+                                Entry::Send
+                            } else {
+                                scn_uni::draw_entry(rng, p.kind)
+                            }
+                        })
+                        .collect()
+                })
+                .collect();
+            HeldParams { own, uni: Some(p), multi: None }
+        } else {
+            let mut p = scn_multi::draw_multi_params(rng, tier, &REJECT_MULTI_KINDS, &[1, 2], 2);
+            p.buffer = *rng.pick(&[2usize, 4]);
+            p.hold = rng.below(p.buffer as u64) as u32;
+            let n_prod = 2 + rng.below(2) as usize;
+            // the pool (BUFFER_SIZE payload slots) runs dry before a listener's queue does: rejections, never the 'full listener' panic
+            p.producers = (0..n_prod).map(|_| (0..(1 + rng.below(max_ops / 2) as usize)).map(|_| scn_multi::draw_multi_entry(rng, p.kind)).collect()).collect();
+            HeldParams { own, uni: None, multi: Some(p) }
+        };
+        // "returns promptly": an operation that does not return within 3000 of its own scheduling points, under a fair
+        // scheduler without injected stalls, is reported (see C20 for the same bound)
+        let sched = match (&mut out.uni, &mut out.multi) {
+            (Some(u), _) => &mut u.sched,
+            (_, Some(m)) => &mut m.sched,
+            _ => unreachable!(),
+        };
+        sched.stall = 0;
+        sched.starvation = 64;
+        sched.op_step_bound = 3_000;
+        out
+    }
+    fn with_sched(&self, p: &HeldParams, s: SchedSpec) -> HeldParams {
+        let mut s = s;
+        s.stall = 0;
+        s.starvation = 64;
+        s.op_step_bound = 3_000;
+        HeldConc.with_sched(p, s)
+    }
+    fn body(&self, p: &HeldParams) -> Option<Body> {
+        let p2 = p.clone();
+        Some(Arc::new(move || conc_body(&p2, "C16", "reject_conc")))
+    }
+    fn assumptions(&self) -> Vec<String> {
+        vec![
+            "sequential consistency at the instrumented atomics; plain shared accesses interleave at the instrumented yield points".into(),
+            "'returns promptly' is judged as: at most 3000 of the operation's own scheduling points under a scheduler without injected stalls and with a starvation bound of 64 decisions".into(),
+            "the crossbeam channel is driven with plain send() only (its setter-based sends wait for room after their fullness test: excluded by the property); the Arc Multi kinds are excluded by the property".into(),
+            "'capacity never shrinks' is judged after every producer returned, the consumers were stopped and nothing is buffered or held: exactly BUFFER_SIZE sends are accepted and the next one is rejected".into(),
+        ]
+    }
+}
